@@ -47,6 +47,9 @@ def parse_cases():
         for u in ['é', '日', '🙂']:
             c.append("'" + 'a' * k + u * 4 + "'")
     c += ["'São José dos Campos – SP'", "x = 'ééééééééééééééééééééééééééééééé'; x", "f('" + 'é' * 40 + "')", "['" + 'a' * 23 + "é', '" + 'b' * 24 + "日']"]
+    # a string literal is never a delimiter, separator or operator, whatever its content (C05, C10)
+    c += ["[1 ',' 2]", 'max(1 "," 2)', "{1 ':' 2}", "true ? 1 ':' 2", "{1:2 ',' 3:4}", "a '('", "sep '('", "(1 + 2 ')'", "f(')'", "sum(1, 2 ')'", 'x = y\n"(" == x', "[1 ']'", "{1: 2 '}'", "1 '+' 2", "a 'in' b", "'-' 1",
+          "x '=' 1", "1 ';' 2", "f '(' 1 ')'", "'not' true", "'[' 1 ']'", "a '?' b ':' c"]
     # multi-byte neighbours (C01 / C10)
     for u in ['é', 'ü', '日本', '🙂', 'ключ']:
         c += ['+%s' % u, '1+%s' % u, 'a>=%s' % u, '!%s' % u, 'x &&%s' % u, "'%s'" % u, "'%s'=='%s'" % (u, u), "['%s',1,2]" % u, "{'%s':1}" % u, "f('%s')" % u, "'%s')" % u, "['%s',,1]" % u,
@@ -104,6 +107,7 @@ def exec_cases():
           '1.2.3', '1..2', 'x = 1.2.3; x', '1.2.3 + 1', '12abc', '1_000', '1.', '.5', '1.e1', '79228162514264337593543950336', '79228162514264337593543950335', '7922816251426433759354395033.5', '0.0000000000000000000000000001', '1.0000000000000000000000000000',
           '9007199254740993 == 9007199254740992', '0.1 + 0.2 == 0.30000000000000004', '1.000000000000000000000000001 == 1', '0.30000000000000001 != 0.3', '9007199254740993 in [9007199254740992]', "'1' == 1", "1 == '1'", "'1.0' in [1]", '1.0 == 1', '[1.0] == [1]',
           'price = 1.1; price = 1.10; price', 'qty = 3; qty = 3.00; qty', 'r = 0.5; r = 0.500; r = 0.50; r', 'a = 1.0; b = a; a = 1; [a, b]', 'x = 2.50; y = x; y',
+          '5 = (y = 2)', 'a = 1; [a = 2] = (a = 3); a', 'n = 10; (n + 1) <<= (m = n)', 'one() = (y = two())', '(x = 1) = 2', 't() ? (u = 1) : (v = 2)', 'x = 1; x = boom(); y = 2',
           'boomT()', 'boomP()', 'boomT', 'sum(1, boomT())', 'min(boomP(), 1)', '[boomT(), one()]', 'x = boomP(); x', 'boomT() ? 1 : 2', 'max(1, 2) + boomP()',
           'boom', 'cnt(boom, two())', 'id(boom)', '[one, boom, two()]', '{one: boom}', 'boom + one()', 'one() + boom', 'true ? boom : 1', 'false ? boom : two()', 'boom ? 1 : 2', 'x = 1; y = boom; z = two(); 4', 'x = boom', '-boom', 'boom++', 'cnt(one, two, t)', 't ? one : two',
           'x = 1', 'x = 1; x', 'x = 1; y = x + 1; y', 'x = 1; x += 2; x', 'x = 6; x -= 1; x *= 3; x %= 4; x', 'x = 8; x /= 2; x', 'x = 6; x &= 3; x |= 8; x ^= 1; x', 'x = y = 3', 'x = 1; x = true; x', 'x += 1', 'x = 1; x += true', 'x = 1; x += true; x',
@@ -208,6 +212,12 @@ SCRIPTS = [
   dict(name='printer_sees_operators_registered_after_its_first_use', steps=[('parse', 'a + b * c', {}), ('reg_infix', 'pow', dict(tag='pow', p='130', assoc='R')), ('parse', '(a + b) pow c', {}), ('parse', 'a pow (b pow c)', {}), ('parse', '(a pow b) pow c', {}),
         ('reg_infix', 'xor', dict(tag='xor', p='45', assoc='L')), ('parse', 'a xor (b || c)', {}), ('parse', '(a xor b) && c', {})],
        expect=[None, None, ('roundtrip',), ('roundtrip',), ('roundtrip',), None, ('roundtrip',), ('roundtrip',)]),
+  dict(name='reregistered_assignment_operator_is_dispatched', steps=[('reg_infix', '=', dict(tag='assign', p='20', assoc='R', ty='SETTER')), ('exec', 'a = 25; a', {}), ('exec', "a = 'text'; a", {})],
+       expect=[None, ('val', 'List([String("assign"), None, Number(25)])'), ('val', 'List([String("assign"), None, String("text")])')]),
+  dict(name='multi_byte_operator_names', steps=[('reg_infix', '≥', dict(tag='ge', p='60', assoc='L')), ('reg_prefix', '¬', dict(tag='neg')), ('reg_postfix', '°', dict(tag='deg')), ('reg_infix', '×÷', dict(tag='md', p='120', assoc='L')),
+        ('exec', '3 ≥ 2', {}), ('exec', '¬ true', {}), ('exec', '370 °', {}), ('parse', '≥', {}), ('exec', '2 ×÷ 3 ≥ 1', {}), ('parse', 'a≥b', {})],
+       expect=[None, None, None, None, ('val', 'List([String("ge"), Number(3), Number(2)])'), ('val', 'List([String("neg"), Bool(true)])'), ('val', 'List([String("deg"), Number(370)])'), ('reject',),
+               ('val', 'List([String("ge"), List([String("md"), Number(2), Number(3)]), Number(1)])'), None]),
   dict(name='postfix_registered_after_use', steps=[('parse', '5!!', {}), ('reg_postfix', '!!', dict(tag='ff')), ('parse', '5!!', {})], expect=[('reject',), None, ('ast', 'Postfix(Literal(Number(5)), "!!")')]),
   dict(name='word_postfix_registered_after_use', steps=[('parse', '3 squared', {}), ('reg_postfix', 'squared', dict(tag='sq')), ('parse', '3 squared', {})],
        expect=[('ast', 'Stmt([Literal(Number(3)), Reference("squared")])'), None, ('ast', 'Postfix(Literal(Number(3)), "squared")')]),
